@@ -6,26 +6,26 @@ def B(qc, tc, **kw):
     return {"quick": q, "thorough": t}
 
 BUDGET = {
-    "C04": B(600, 12000),
-    "C09": B(600, 12000),
-    "C01": B(1500, 20000),
-    "C02": B(1500, 20000, foreign=["ASSERT:m_activeOp"]),
-    "C03": B(1500, 20000, foreign=["ASSERT:m_activeOp"]),
-    "C12": B(1500, 20000, foreign=["ASSERT:m_activeOp"]),
-    "C07": B(1500, 15000),
-    "C08": B(1500, 15000),
-    "C20": B(1500, 15000),
-    "C15": B(150, 1500, nondeterministic=True, cpu_limit=120, max_shrink=150),
-    "C11": B(1200, 12000),
-    "C06": B(700, 10000),
-    "C13": B(500, 7000),
-    "C17": B(500, 6000, cpu_limit=60),
-    "C18": B(300, 4000, cpu_limit=60),
-    "C19": B(2500, 40000),
-    "C14": B(800, 10000),
-    "C05": B(800, 12000),
-    "C10": B(1500, 20000),
-    "C16": B(800, 12000),
+    "C04": B(3600, 36000),
+    "C09": B(3600, 36000),
+    "C01": B(3000, 30000),
+    "C02": B(3000, 30000, foreign=["ASSERT:m_activeOp"]),
+    "C03": B(2200, 22000, foreign=["ASSERT:m_activeOp"]),
+    "C12": B(2400, 24000, foreign=["ASSERT:m_activeOp"]),
+    "C07": B(4500, 40000),
+    "C08": B(4500, 40000),
+    "C20": B(4500, 30000),
+    "C15": B(450, 3500, nondeterministic=True, cpu_limit=120, max_shrink=150),
+    "C11": B(3000, 28000),
+    "C06": B(1800, 18000),
+    "C13": B(1500, 14000),
+    "C17": B(1500, 12000, cpu_limit=60),
+    "C18": B(1200, 9000, cpu_limit=60),
+    "C19": B(7500, 70000),
+    "C14": B(4800, 40000),
+    "C05": B(4000, 36000),
+    "C10": B(6000, 50000),
+    "C16": B(4800, 40000),
 }
 
 SCHED = ("Each case is a small concurrent program plus a schedule: the executor interposes the pthread API, runs exactly one thread at a time "
